@@ -420,6 +420,53 @@ func checkC09(c *Check) {
 		c.HoldConst("K3c", "no-skip-counter", token.NoPos, true, "")
 	}
 
+	// ---- K6: the per-connection fan-out of the remote target covers every accepted recipient: connections that carry
+	// accepted recipients are never removed from the delivery before its results were reported
+	c.Rule("K6", "the remote target reports per-recipient results by iterating its connections: a connection is never removed from the delivery (other than by ending it), so every accepted recipient is covered", 1)
+	if pk := p.Pkg(remoteRel); pk != nil {
+		bad := ""
+		var badPos token.Pos
+		n := 0
+		p.AllFuncs([]*packagesPkg{pk}, func(fi *FuncInfo) {
+			info := fi.Info()
+			ast.Inspect(fi.Decl.Body, func(x ast.Node) bool {
+				switch s := x.(type) {
+				case *ast.CallExpr:
+					if id, ok := s.Fun.(*ast.Ident); ok && (id.Name == "delete" || id.Name == "clear") && len(s.Args) >= 1 && isField(info, s.Args[0], "remoteDelivery", "connections") {
+						bad = "a connection is removed from the delivery in " + fi.Name() + ": recipients already accepted on it are no longer covered by the result fan-out (they get no status and the queue counts them as delivered)"
+						badPos = s.Pos()
+					}
+				case *ast.AssignStmt:
+					for _, l := range s.Lhs {
+						if isField(info, l, "remoteDelivery", "connections") {
+							bad = "the delivery's connection table is replaced in " + fi.Name()
+							badPos = s.Pos()
+						}
+						if ix, ok := ast.Unparen(l).(*ast.IndexExpr); ok && isField(info, ix.X, "remoteDelivery", "connections") {
+							n++
+							if fi.Obj.Name() != "connectionForDomain" {
+								bad = "the delivery's connection table is written outside connectionForDomain (in " + fi.Name() + ")"
+								badPos = s.Pos()
+							}
+						}
+					}
+				}
+				return true
+			})
+		})
+		// and the fan-out ranges over the whole table
+		okRange := false
+		if rb := c.In(remoteRel, "remoteDelivery", "BodyNonAtomic"); rb != nil {
+			for range rangesIn(rb.FI.Decl.Body, func(rs *ast.RangeStmt) bool { return isField(rb.Info, rs.X, "remoteDelivery", "connections") }) {
+				okRange = true
+			}
+		}
+		if !okRange && bad == "" {
+			bad = "the per-recipient fan-out of the remote target does not range over all of the delivery's connections"
+		}
+		c.Hold("K6", "remoteDelivery.connections", badPos, bad == "" && n >= 1, bad)
+	}
+
 	// ---- K4 translating layers
 	c.Rule("K4", "a layer that hands a transformed address to the inner AddRcpt translates result keys back through a table written at the forwarding site; already-translated keys are not translated again", 3)
 	c09Translate(c, pc, sites)
